@@ -695,6 +695,95 @@ def variant(original, rng, stats, mode="exec", max_steps=6, rules=None, want_sig
     return cur, applied
 
 
+def single_site_variants(text, mode="exec"):
+    """Exhaustive small scope: EVERY site of every rule, one at a time, with a small fixed palette of fillers
+    (plus the whole-text rewrites).  `text` is LF-normalised.  Returns [(rule, variant)], not yet validated."""
+    S = Src(text)
+    out = []
+
+    def one(rule, pos, dl, ins):
+        out.append((rule, text[:pos] + ins + text[pos + dl:]))
+    n = len(text)
+    # line ends: every line break of the text individually and all together
+    brks = [m.start() for m in re.finditer("\n", text)]
+    for p in brks:
+        one("eol", p, 1, "\r\n")
+        if not text.startswith("\n", p + 1):
+            one("eol", p, 1, "\r")
+    if brks:
+        out.append(("eol", text.replace("\n", "\r\n")))
+        out.append(("eol", text.replace("\n", "\r")))
+    for p, kind in S.line_ends():
+        q = p
+        while q > 0 and text[q - 1] in " \t\x0c":
+            q -= 1
+        k = bisect.bisect_right(S.ls, p) - 1
+        L = S.ls[k]
+        after_bs = q > 0 and text[q - 1] == "\\" and not S.in_comment(q - 1)
+        blank0 = q <= L and S.depth_at(L) == 0
+        if not after_bs:
+            for w in ([" ", "\t", "\t  ", "\x0c"] if blank0 else [" ", "\t", " \t", "\x0c", "   \t \x0c"]):
+                if blank0 and (k > 0 and S.nl.get(L - 1) in ("str", "cont")):
+                    continue
+                if blank0 and q > L:
+                    continue        # keep the existing blank line's own whitespace out of it
+                one("trail", p, 0, w)
+            if q > L:
+                for c in [" # c", "#", "\t#\\", " #'\"(["]:
+                    one("comment", p, 0, c)
+        if q < p and not after_bs:
+            one("trail", q, p - q, "")
+    for L, d in S.free_line_starts():
+        fills = ["\n", "   \n", "\t\n", "# c\n", "        # deep\n", "\t \t#\n" if d else "\t  #\n", "\x0c\n", "#\\\n",
+                 "\n\n# c\n\n"]
+        for f in fills:
+            one("blank", L, 0, f)
+            if L == n:
+                one("blank", L, 0, f[:-1])
+        if L < n:
+            one("formfeed", L, 0, "\x0c")
+            one("formfeed", L, 0, "  \x0c")
+            one("formfeed", L, 0, "\t\x0c\x0c")
+    for i, j in S.sig_pairs():
+        a, b = S.toks[i][3], S.toks[j][2]
+        gap = text[a:b]
+        if S.depth_after[i] == 0:
+            if "\n" in gap or "#" in gap or "\\" in gap:
+                continue
+            for ins in ["\\\n", " \\\n \t ", "\\\n\\\n", "\t\\\n\x0c"]:
+                one("bsjoin", b, 0, ins)
+            if a < b:
+                one("bsjoin", a, 0, "\\\n")
+        else:
+            for ins in ["\n", "\n        ", " # c\n\t", "\n\n", "\n \t#\n \t", "\x0c\n\x0c"]:
+                one("brk", b, 0, ins)
+            if "\n" in gap and "#" not in gap and "\\" not in gap:
+                one("brk", a, b - a, " ")
+    for p, k in S.nl.items():
+        if k == "cont":
+            b = p + 1
+            while b < n and text[b] in " \t\x0c":
+                b += 1
+            if not (b < n and text[b] in "\\\n#"):
+                one("bsjoin", p - 1, b - (p - 1), " ")
+    for a, b in _paren_sites(text, S, mode):
+        out.append(("parens", text[:a] + "(" + text[a:b] + ")" + text[b:]))
+    lines, parents = S.blocks()
+    if len(parents) > 1:
+        for unit in [" ", "  ", "        ", "\t", "\t ", "\t\t"]:
+            new = {0: ""}
+            for bk in range(1, len(parents)):
+                par = new[parents[bk]]
+                new[bk] = par + (unit if " " not in par else " " * max(1, unit.count(" ") + unit.count("\t")))
+            eds = [(L, S.toks[ti][2] - L, new[b], 1) for (ti, b, L) in lines if text[L:S.toks[ti][2]] != new[b]]
+            if eds:
+                out.append(("reindent", apply_edits(text, eds)))
+    out.append(("bom", "\ufeff" + text))
+    for e in r_finalnl(S, None):
+        out.append(("finalnl", apply_edits(text, [e])))
+    return [(r, v) for r, v in out if v != text]
+
+
 def usable_original(text, stats, mode="exec"):
     """inside the quantifier: CPython accepts, valid UTF-8 text, tab handling inside the domain"""
     sig = ref_sig(text, mode)
